@@ -24,7 +24,8 @@ CONSTANTS
   HOps = {"read", "write", "ret"}
   ReadLens = {1}
   WriteLens = {1}
-  N400 = 1
+  N400C = 1
+  N400T = 2
   MaxSteps = @STEPS@
   MaxData = @MAXDATA@
   MaxHdrs = @MAXHDRS@
